@@ -58,6 +58,11 @@ def run(tier, seed):
             p["runs"] = [{"dom": d, "mode": "fb", "bwd": 1, "refine": ck.rng.choice([0, 1, 5]), "use_refined": ck.rng.choice([0, 1]),
                           "wd": ck.rng.choice([0, 1, 2]), "desc": ck.rng.choice([0, 1, 2]), "th": ck.rng.choice([0, 0, 5])} for d in FB_DOMS]
             ps.append(p)
+        for i in range(30 if tier == "quick" else 100):     # directed: one defining statement of every kind, dominated assertion
+            p = proggen.backward_pattern_program(ck.rng, 150000 + off + i)
+            p["runs"] = [{"dom": d, "mode": "fb", "bwd": 1, "refine": ck.rng.choice([0, 1, 5]), "use_refined": ck.rng.choice([0, 1]),
+                          "wd": 1, "desc": 1, "th": 0} for d in ("intervals", "split_dbm", "split_oct", "bool_int", "dis_intervals", "term_int")]
+            ps.append(p)
         if off == 0:   # fixed regression cases (replays of earlier findings)
             import os
             rd = os.path.join(vlib.ROOT, "tools", "regress")
